@@ -34,6 +34,7 @@ type replay struct {
 	Seq   []frameCase `json:"seq,omitempty"`
 	V     int         `json:"v,omitempty"`
 	A     int         `json:"a,omitempty"`
+	Pair  *psiPair    `json:"pair,omitempty"`
 }
 
 const delay = 63000 // the constant lal adds to PTS/DTS (700 ms at 90 kHz); checked to be ONE constant
@@ -293,6 +294,10 @@ func main() {
 			checkSeq(r, rp.Seq)
 		case "psi":
 			checkPsi(r, rp.V, rp.A)
+		case "psipair":
+			checkPsiPair(r, *rp.Pair)
+		case "psiremux":
+			checkPsiRemuxPair(r, *rp.Pair)
 		}
 		r.Finish()
 	}
@@ -361,6 +366,32 @@ func main() {
 			checkPsi(r, v, a)
 		}
 	}
+	// the same blocks in a history of two streams (history.go)
+	npairs := 0
+	for _, v1 := range []int{-1, 0, 7, 12, 13} {
+		for _, a1 := range []int{-1, 0, 7, 8, 10, 13} {
+			for _, v2 := range []int{-1, 0, 7, 12, 13} {
+				for _, a2 := range []int{-1, 0, 7, 8, 10, 13} {
+					checkPsiPair(r, psiPair{v1, a1, v2, a2})
+					npairs++
+				}
+			}
+		}
+	}
+	for _, v1 := range []int{-1, 7, 12} {
+		for _, a1 := range []int{-1, 10, 13} {
+			for _, v2 := range []int{-1, 7, 12} {
+				for _, a2 := range []int{-1, 10, 13} {
+					if (v1 == -1 && a1 == -1) || (v2 == -1 && a2 == -1) {
+						continue
+					}
+					checkPsiRemuxPair(r, psiPair{v1, a1, v2, a2})
+					npairs++
+				}
+			}
+		}
+	}
+	r.Cov("psi_history_pairs", npairs)
 
 	alpha := []frameCase{
 		{Len: 50, Key: true, Pts: 90000, Dts: 90000, Pid: 0x100, Sid: 0xE0},
